@@ -306,8 +306,7 @@ func (s *Sym) fieldOf(env *Env, b TV, name string) TV {
 		}
 		mn, ft := FieldMapName(owner, i)
 		if _, nested := ft.Underlying().(*types.Struct); nested {
-			fn := s.declareFun("sub:"+mn, []string{"Int"}, "Int")
-			return TV{T: fmt.Sprintf("(%s %s)", fn, b.T), S: "Int", GT: ft}
+			return TV{T: s.subRef(mn, b.T), S: "Int", GT: ft}
 		}
 		so := SortOf(ft)
 		m := s.getMap(env.st, mn, mapSortOfElem(so))
